@@ -171,6 +171,7 @@ Proof using. intros H. apply H. Qed.
 
 Ltac pos_triv :=
   cbv beta; repeat match goal with |- context [if ?b then _ else _] => destruct b end;
+  repeat match goal with |- context [match sc_ifms ?s with _ => _ end] => destruct (sc_ifms s) as [|[| | |] ?] end;
   unfold same_pos; sproj; repeat split; reflexivity.
 
 Lemma ps_push_tok t : ttok t -> pstep (push_tok t).
@@ -253,8 +254,9 @@ Qed.
 Lemma ps_eim mk : tmark mk -> pstep (end_implicit_mapping mk).
 Proof using.
   intros Hm. unfold end_implicit_mapping. apply ps_get. intros s HT HQI.
-  destruct (sc_ifms s) as [|[|] r]; try (apply ps_lift, ps_ret).
-  apply ps_bind_at; [apply ps_put_at; [pos_triv|intros H; exact H]|apply ps_push_tok, ttok_empty, Hm].
+  destruct (sc_ifms s) as [|[| | |] r]; try (apply ps_lift, ps_ret).
+  - apply ps_bind_at; [apply ps_put_at; [pos_triv|intros H; exact H]|apply ps_push_tok, ttok_empty, Hm].
+  - apply ps_put_at; [pos_triv|intros H; exact H].
 Qed.
 Lemma ps_incr : pstep (increase_flow_level (I:=strin)).
 Proof using.
@@ -480,7 +482,7 @@ Qed.
 Lemma pw_fetch_flow_collection_end F seq pre s :
   MarkAt pre s -> QInv s -> is_breakz (rnth s 0) = false -> pwp (fetch_flow_collection_end str_ops F seq) fpost s.
 Proof using no_nul.
-  intros HM HQI Hz. unfold fetch_flow_collection_end. sks. sks. sks. sks. wmark.
+  intros HM HQI Hz. unfold fetch_flow_collection_end. sks. sks. sks. sks. sks. wmark.
   wskip; [rewrite (same_pos_rnth s) by spc; exact Hz|].
   wupost pos_skip_ws_to_eol. sks. wmark. fin.
 Qed.
@@ -539,7 +541,7 @@ Proof using no_nul.
   intros HM HQI Hz. unfold fetch_value. wget. have_tm.
   destruct (sc_sks s) as [|sk r0] eqn:EK; [wb; apply swp_panic|]. wb. apply swp_ret. cbv beta zeta.
   assert (HK : sk_ok sk). { destruct HQI as [_ K]. rewrite EK in K. inversion K; assumption. }
-  match goal with |- context [?a && negb (sc_fms s)] => generalize (a && negb (sc_fms s)); intros ifm end.
+  match goal with |- context [if ?a then modify _ else ret tt] => generalize a; intros ifm end.
   sks.
   wskip; [rewrite (same_pos_rnth s) by spc; exact Hz|].
   wb. eapply (pwp_look_ch orig no_nul); [eassumption|]. intros s2 M2 R2 I2.
